@@ -16,6 +16,7 @@ import (
 	"sync/atomic"
 	"time"
 
+	"go.sia.tech/core/types"
 	"verifmc/codec"
 	"verifmc/vf"
 )
@@ -415,7 +416,29 @@ func corpus(c *vf.Ctx) (units []unit, perPkg map[string]map[string]int) {
 		units = append(units, unit{kind: kindBinary, entry: "types.SatisfiedPolicy", pkg: "types", base: sat, label: fmt.Sprintf("satisfied policy nested %d deep", d), only: true})
 		bump("types", "structured_attack_inputs", 2)
 	}
-	c.Set("structured_attacks", map[string]any{"policy_nesting_depths": depths, "worker_max_stack_bytes": workerMaxStack})
+	// structured attack: multiproof-form transaction lists whose elements carry an EMBEDDED Merkle proof (the library's
+	// encoder always strips them; a hand-made peer need not) of 1, 63, 64, 65 hashes, with a valid leaf index, leaf count
+	// and multiproof. These are bases: all their prefixes (stream ending before the leaf count / inside the multiproof),
+	// byte and window variations (leaf count below the leaf index, ...) are enumerated like those of any other base.
+	var embedded []int
+	for _, L := range []int{1, 63, 64, 65} {
+		embedded = append(embedded, L)
+		txn := types.V2Transaction{SiacoinInputs: []types.V2SiacoinInput{{
+			Parent:          types.SiacoinElement{StateElement: types.StateElement{LeafIndex: 5, MerkleProof: make([]types.Hash256, L)}, SiacoinOutput: types.SiacoinOutput{Value: types.Siacoins(1)}},
+			SatisfiedPolicy: types.SatisfiedPolicy{Policy: types.AnyoneCanSpend()}}}, MinerFee: types.Siacoins(1)}
+		wire := codec.Enc(func(e *types.Encoder) {
+			types.EncodeSlice(e, []types.V2Transaction{txn})
+			e.WriteUint64(8) // leaf count: leaf 5 lies in the tree of height 2 -> proof of 2 hashes, multiproof of 2 hashes
+			for i := 0; i < 3; i++ {
+				types.Hash256{byte(i + 1)}.EncodeTo(e)
+			}
+		})
+		units = append(units, unit{kind: kindBinary, entry: "types.V2TransactionsMultiproof", pkg: "types", base: wire, label: fmt.Sprintf("multiproof form with an embedded %d-hash element proof", L)})
+		bd := append(make([]byte, 40), wire...) // height 0, zero commitment
+		units = append(units, unit{kind: kindBinary, entry: "types.V2BlockData", pkg: "types", base: bd, label: fmt.Sprintf("block data with an embedded %d-hash element proof", L)})
+		bump("types", "structured_attack_inputs", 2)
+	}
+	c.Set("structured_attacks", map[string]any{"policy_nesting_depths": depths, "worker_max_stack_bytes": workerMaxStack, "multiproof_embedded_proof_lengths": embedded})
 	maxTexts := vf.Pick(c, 4, 16)
 	maxTextLen := vf.Pick(c, 1500, 8000)
 	for _, t := range codec.TextEntries() {
@@ -440,8 +463,8 @@ func corpus(c *vf.Ctx) (units []unit, perPkg map[string]map[string]int) {
 func runDecoders(c *vf.Ctx) {
 	codec.Seed = c.Seed
 	c.Set("rule", "decoder half: for every inventory codec (same inventory as C11) and every text entry point, for every base encoding of the (capped) C11 domain: "+
-		"every proper prefix; every byte position x {0x00,0x01,0x7F,0x80,0xFF,b^1,b+1}; every 8-byte window x {0,1,2^31,2^32,2^40,2^62,2^63,2^64-1} little-endian; every 8-byte window set to 131072 and followed by 131072 bytes of 0xFF instead of the rest (a count that equals the bytes left); "+
-		"texts: every position x 12-symbol alphabet, every deletion, every duplication, length -1,-2,+1,+2,x2, every number token (digit run, incl. quoted integer keys of JSON objects) x 13 boundary numbers (-1, 63..65, 255, 256, 2^16, 2^32, 2^63, 2^64-1, 2^64, 41 digits, 1e9). A case is non-trivial when it is a distinct (entry, input) pair")
+		"every proper prefix; every byte position x {0x00,0x01,0x7F,0x80,0xFF,b^1,b+1}; every 8-byte window x {0,1,2^31,2^32,2^40,2^62,2^63,2^64-1} little-endian; every 8-byte window set to 131072 and followed by 131072 bytes of 0xFF instead of the rest (a count that equals the bytes left), and set to 64 / 65 followed by 4096 bytes of 0xFF (a list of exactly / just over 64 32-byte entries, then garbage); "+
+		"texts: every position x 12-symbol alphabet, every deletion, every duplication, length -1,-2,+1,+2,x2, every number token (digit run, incl. quoted integer keys of JSON objects) x 15 boundary numbers (1e100000, 1e999999, -1, 63..65, 255, 256, 2^16, 2^32, 2^63, 2^64-1, 2^64, 41 digits, 1e9). A case is non-trivial when it is a distinct (entry, input) pair")
 	c.Assume("allocation is measured with runtime/metrics /gc/heap/allocs:bytes around a single-goroutine decode in the worker (large objects are accounted immediately; small-class lag is far below the 8 MiB constant of the allowance)")
 	c.Assume("workers run with RLIMIT_AS = 4 GiB set by the worker itself before decoding; a worker that dies is a violation attributed to the case index it stored in shared memory before decoding")
 	c.Assume("termination: a decode that makes no progress for 120 s is declared non-terminating (never observed); no other use of wall-clock time")
@@ -525,7 +548,7 @@ func families(kind int) []string {
 	if kind == kindText {
 		return []string{"text-substitute", "text-delete", "text-duplicate", "text-length", "text-number"}
 	}
-	return []string{"prefix", "byte-sub", "u64-window", "padded-count"}
+	return []string{"prefix", "byte-sub", "u64-window", "padded-count", "padded-count-64", "padded-count-65"}
 }
 
 // distinctInputs counts the distinct inputs per base exactly (64-bit hash of
